@@ -182,6 +182,8 @@ class Interp:
             self.lalias = {a for a, t in self.primary.imports.items() if t == LNODES}
         self.classes = classes
         self.overrides: dict = {}  # name -> _PyCall / value: stubs for callees outside the interpreted modules
+        self.obj_classes: dict[str, str] = {}  # class name -> module name, for sample objects of non-LNodes classes
+        self.ctx: list = []  # module context of the function being interpreted (name resolution follows its imports)
         self.depth = 0
         # class-level aliases such as `__truediv__ = __div__`
         self.aliases: dict[tuple[str, str], str] = {}
@@ -192,8 +194,49 @@ class Interp:
                         if isinstance(t, ast.Name) and t.id.startswith("__"):
                             self.aliases[(cname, t.id)] = st.value.id
 
+    def cur(self):
+        return self.ctx[-1] if self.ctx else self.primary
+
+    def is_lalias(self, name: str) -> bool:
+        m = self.cur()
+        return m is not None and m.imports.get(name) == LNODES
+
+    def resolve_global(self, name: str):
+        """A module-level name of the current module: own function, or a function imported from a repo module."""
+        m = self.cur()
+        if m is None:
+            return None
+        if name in m.funcs:
+            return m.funcs[name]
+        tgt = m.imports.get(name)
+        if tgt and "." in tgt:
+            modname, fn = tgt.rsplit(".", 1)
+            if modname in self.repo.modules and fn in self.repo.modules[modname].funcs:
+                return self.repo.modules[modname].funcs[fn]
+        return None
+
+    def resolve_enum(self, name: str):
+        """An Enum class of a repo module visible under `name` in the current module."""
+        m = self.cur()
+        if m is None:
+            return None
+        cands = []
+        if name in m.classes:
+            cands.append(m.classes[name])
+        tgt = m.imports.get(name)
+        if tgt and "." in tgt:
+            modname, cn = tgt.rsplit(".", 1)
+            if modname in self.repo.modules and cn in self.repo.modules[modname].classes:
+                cands.append(self.repo.modules[modname].classes[cn])
+        for c in cands:
+            if any((dotted(b) or "").split(".")[-1] in ("Enum", "IntEnum") for b in c.bases):
+                return _EnumCls(c.name)
+        return None
+
     # ---- method lookup ----------------------------------------------------------------------
     def find_method(self, cls: str, name: str):
+        if cls in self.obj_classes:
+            return self.repo.mod(self.obj_classes[cls]).funcs.get(f"{cls}.{name}")
         chain = [cls] + (self.classes[cls].bases if cls in self.classes else [])
         for c in chain:
             if (c, name) in self.aliases:
@@ -207,11 +250,19 @@ class Interp:
         f = self.find_method(obj.cls, name)
         if f is None:
             raise AnalysisError(f"absint: {obj.cls} has no method {name}")
-        return self.call_func(f.node, [obj] + list(args))
+        return self.call_f(f, [obj] + list(args))
+
+    def call_f(self, f, args: list, kwargs=None):
+        """Call a model.Func in the context of its own module."""
+        self.ctx.append(f.module)
+        try:
+            return self.call_func(f.node, args, kwargs)
+        finally:
+            self.ctx.pop()
 
     def call_func(self, fnode: ast.FunctionDef, args: list, kwargs=None):
         self.depth += 1
-        if self.depth > 40:
+        if self.depth > 60:
             raise AnalysisError("absint: recursion too deep")
         try:
             params = [a.arg for a in fnode.args.args]
@@ -442,7 +493,7 @@ class Interp:
             for meth in ("__str__", "__repr__"):
                 m = self.find_method(x.cls, meth)
                 if m is not None:
-                    return self.call_func(m.node, [x])
+                    return self.call_f(m, [x])
             raise AnalysisError(f"absint: str() of {x.cls}, which has no __repr__ (the text would contain an address)")
         if isinstance(x, (list, tuple)):
             inner = ", ".join(self.to_str(i) if isinstance(i, Node) else repr(i) for i in x)
@@ -457,7 +508,7 @@ class Interp:
             raise AnalysisError(f"absint: {cls} has no __init__")
         obj = Node(cls)
         # interpret the real __init__ so that its checks (asserts, as_lexpr, raises) are honoured
-        self.call_func(init.node, [obj] + list(args), kwargs)
+        self.call_f(init, [obj] + list(args), kwargs)
         return obj
 
     def expr(self, e, env):
@@ -468,8 +519,12 @@ class Interp:
                 return env[e.id]
             if e.id in self.overrides:
                 return self.overrides[e.id]
-            if self.primary is not None and e.id in self.primary.funcs:
-                return self.primary.funcs[e.id]
+            g = self.resolve_global(e.id)
+            if g is not None:
+                return g
+            en = self.resolve_enum(e.id)
+            if en is not None:
+                return en
             if e.id in self.classes:
                 return _Cls(e.id)
             f = self.mod.funcs.get(e.id)
@@ -488,9 +543,11 @@ class Interp:
                 return 0
             if d and d.startswith("DataType."):
                 return "DataType." + e.attr
+            if d and d in self.overrides:
+                return self.overrides[d]
             if d:
                 parts = d.split(".")
-                if parts[0] in self.lalias and parts[0] not in env:
+                if (self.is_lalias(parts[0]) or (not self.ctx and parts[0] in self.lalias)) and parts[0] not in env:
                     if len(parts) == 2:
                         if parts[1] in self.classes:
                             return _Cls(parts[1])
@@ -507,22 +564,20 @@ class Interp:
                     return base.f[e.attr]
                 if e.attr == "dtype":
                     return "DataType.NONE"
-                if e.attr == "precedence":
-                    return self.classes[base.cls].precedence
-                if e.attr == "sideeffect":
-                    return self.classes[base.cls].sideeffect
-                if e.attr == "op":
-                    return self.classes[base.cls].op
+                if e.attr in ("precedence", "sideeffect", "op") and base.cls in self.classes:
+                    return getattr(self.classes[base.cls], e.attr)
                 m = self.find_method(base.cls, e.attr)
                 if m is not None:
                     if any(isinstance(dc, ast.Name) and dc.id == "property" for dc in m.node.decorator_list):
-                        return self.call_func(m.node, [base])
+                        return self.call_f(m, [base])
                     return _Bound(base, m)
                 raise AnalysisError(f"absint: {base.cls} has no attribute {e.attr}")
             if isinstance(base, (int, float, complex)) and not isinstance(base, bool) and e.attr in ("real", "imag"):
                 return getattr(base, e.attr)
             if base is dict and e.attr == "fromkeys":
                 return _PyCall(lambda it, v=None: dict.fromkeys(self.iterate(it), v))
+            if isinstance(base, _EnumCls):
+                return f"{base.name}.{e.attr}"
             if isinstance(base, _Cls):
                 m = self.find_method(base.name, e.attr)
                 if m is not None:
@@ -742,13 +797,13 @@ class Interp:
         if fn == "type":
             return _Cls(vals[0].cls) if isinstance(vals[0], Node) else type(vals[0])
         f = self.expr(e.func, env) if fn is None or fn.split(".")[0] in env or fn in self.classes or fn in self.mod.funcs or "." in (fn or "") \
-            or (self.primary is not None and fn in self.primary.funcs) or fn in self.overrides else None
+            or self.resolve_global(fn or "") is not None or fn in self.overrides else None
         if f is None:
             raise AnalysisError(f"absint: unknown callee `{fn}`")
         if isinstance(f, _Cls):
             return self.construct(f.name, vals, kw)
         if isinstance(f, _Bound):
-            return self.call_func(f.func.node, [f.obj] + vals, kw)
+            return self.call_f(f.func, [f.obj] + vals, kw)
         if isinstance(f, _Lam):
             env2 = dict(f.env)
             for p, v in zip([a.arg for a in f.node.args.args], vals):
@@ -788,7 +843,7 @@ class Interp:
                         return None
                 raise Raised("ValueError")
         if hasattr(f, "node") and isinstance(f.node, ast.FunctionDef):
-            return self.call_func(f.node, vals, kw)
+            return self.call_f(f, vals, kw) if hasattr(f, "module") else self.call_func(f.node, vals, kw)
         raise AnalysisError(f"absint: cannot call `{ast.unparse(e.func)}`")
 
 
@@ -820,6 +875,11 @@ class _Lam:
     def __init__(self, node, env):
         self.node = node
         self.env = env
+
+
+class _EnumCls:
+    def __init__(self, name):
+        self.name = name
 
 
 class _PyCall:
